@@ -102,15 +102,18 @@ def denote(seq, labels, parent_list=None, counter=None):
     return parent_list
 
 
-def unroll(nodes):
-    "-> nested list of (label, children, index): repeats an element with its subtree / a group's list N times in place"
+def unroll(nodes, counter=1):
+    """-> nested list of (label, children, index): repeats an element with its subtree / a group's list N times in place.
+    A `$` in a label is replaced by the counter of the nearest repeated element or group containing it (itself included),
+    1 when there is none."""
     out = []
     for nd in nodes:
-        for _ in range(nd.rep or 1):
+        for i in range(nd.rep or 1):
+            c = i + 1 if nd.rep else counter
             if nd.label is None:
-                out += unroll(nd.ch)
+                out += unroll(nd.ch, c)
             else:
-                out.append((nd.label, unroll(nd.ch), nd.index))
+                out.append((nd.label.replace('$', str(c)), unroll(nd.ch, c), nd.index))
     return out
 
 
